@@ -62,6 +62,12 @@ Definition grow (l : rlc) (c : N) (v : view) : view :=
   | _ => with_vs v (add_precommit (add_prevote (v_vs v) [7] 10) [7] 10)
   end.
 
+(** the header the state machine re-sent from its action store at start-up carries a real 32-byte hash
+    that the numeric wire encoding cannot name (id 255): views generated later do not contain it *)
+Definition strip_opaque (v : view) : view :=
+  mkView (v_h v) (v_r v) (v_ver v) (v_vs v)
+         (filter (fun p => negb (bytes_eqb (ph_hash p) [255])) (v_phs v)) (v_pcp_hash v) (v_pcp_vs v).
+
 Fixpoint grow_n (l : rlc) (n : nat) (c : N) (v : view) : view :=
   match n with
   | O => v
@@ -107,7 +113,7 @@ Definition candidates (s : sm) (c1 c2 c3 : N) : list (N * event) :=
       | None => rep 6 (EvFinResp (rH l) (rR l) [7] 15 [c1 mod 3 + 2]) ++ echo_fin s 15 2 ++ echo_fin s 14 3
                 ++ (if c3 mod 7 =? 0 then one [EvStop; EvFinResp (rH l) (rR l) [7] 0 [2]] else [])
       | Some cur =>
-          let nv := with_ver (grow_n l (N.to_nat (1 + c2 mod 2)) c1 cur) (v_ver cur + 1) in
+          let nv := with_ver (grow_n l (N.to_nat (1 + c2 mod 2)) c1 (strip_opaque cur)) (v_ver cur + 1) in
           let nv := if (v_h nv =? rH l) && (v_r nv =? rR l) then nv else view_empty (rH l) (rR l) in
           rep 10 (EvView nv None)
           ++ (if c3 mod 11 =? 0 then one [EvView nv (Some (rH l, rR l + 1 + c2 mod 2)); EvView (view_empty 0 0) (Some (rH l, rR l + 1))] else [])
